@@ -152,6 +152,7 @@ class Model:
         self.mod_globals = collections.defaultdict(dict)   # mod -> name -> value AST
         self._load()
         self._link()
+        self._alias_decorators()
         self._env_cache = {}
         self._rt_cache = {}
         self._infer_fields()
@@ -210,6 +211,17 @@ class Model:
                 g = Func('%s.<locals>.%s' % (f.qn, st.name), st, f.mod, f.path, cls=None, parent=f)
                 g.nested = {}
                 f.nested[st.name] = g
+
+    def _alias_decorators(self):
+        """NAME = functools.lru_cache(...) at module level, then @NAME: the function is memoised just the same"""
+        for fn in self.all_funcs():
+            for d in fn.node.decorator_list:
+                head = d.func if isinstance(d, ast.Call) else d
+                if isinstance(head, ast.Name):
+                    gv = self.global_value(fn.mod, head.id)
+                    if gv is not None and any(k in ast.unparse(gv[1]) for k in ('lru_cache', 'functools.cache')):
+                        fn.is_cached = True
+                        fn.decorators = set(fn.decorators) | {'functools.lru_cache'}
 
     def _link(self):
         for c in self.classes.values():
@@ -795,6 +807,13 @@ class Model:
                     gv = self.global_value(fn.mod, n.id) if not isinstance(t, (Func, Cls)) else None
                     if gv is not None:
                         for m_ in ast.walk(gv[1]):
+                            if isinstance(m_, ast.Call) and m_.args and isinstance(m_.args[0], ast.Constant) and isinstance(m_.args[0].value, str) and \
+                                    (self.ext_name(gv[0], m_.func) or '') in ('operator.attrgetter', 'operator.methodcaller'):
+                                for a_ in m_.args:
+                                    if isinstance(a_, ast.Constant) and isinstance(a_.value, str):
+                                        for t2 in self.cha(a_.value.split('.')[-1]):
+                                            cg[fn.qn].add(t2.qn)
+                                            sites[t2.qn].append((fn, n))
                             if isinstance(m_, ast.Name):
                                 t2 = self.resolve_name(gv[0], m_.id)
                                 if isinstance(t2, Func):
@@ -805,7 +824,7 @@ class Model:
                 if isinstance(n, ast.Call) and n.args:
                     nm = self.ext_name(fn.mod, n.func)
                     a0 = None
-                    if nm == 'operator.methodcaller':
+                    if nm in ('operator.methodcaller', 'operator.attrgetter'):
                         a0 = n.args[0]
                     elif nm == 'builtins.getattr' and len(n.args) >= 2:
                         a0 = n.args[1]
